@@ -708,8 +708,11 @@ def static_req(idx, meth="GET", ver=1, close=False, ka10=False, hdrs=(), kareq=F
                model=[mline(200, "H" if head else "G", ver, 1, ka, fl, size, size)], cl=size)
 
 
-def client(port, data, sched=None, total_timeout=30.0, segs=None):
-    """send `data` (optionally in segments with pauses), read to close; sched = (rcvbuf, delay, chunk, pause)"""
+def client(port, data, sched=None, total_timeout=30.0, segs=None, patience=25.0):
+    """send `data` (optionally in segments with pauses), read to close; sched = (rcvbuf, delay, chunk, pause).
+    patience = seconds without a single octet before the client gives up; it is longer than the server's
+    own server.max-write-idle (20 s), so a connection that is still open when the client gives up means a
+    starved or hung server, not a slow one"""
     s = socket.socket()
     if sched and sched[0]:
         s.setsockopt(socket.SOL_SOCKET, socket.SO_RCVBUF, sched[0])
@@ -743,11 +746,11 @@ def client(port, data, sched=None, total_timeout=30.0, segs=None):
             time.sleep(sched[1])
         chunk = sched[2] if sched else 262144
         pause = sched[3] if sched else 0
-        # progress-based: the read ends when the server closes or nothing arrives for 10 s; the hard cap
+        # progress-based: the read ends when the server closes or nothing arrives for `patience` s; the hard cap
         # only guards against an endless trickle (an absolute deadline made slow-reader cases fail on a
         # loaded machine: a transfer that was still progressing looked like a truncated response)
         end = time.time() + max(300.0, total_timeout * 10)
-        s.settimeout(10)
+        s.settimeout(patience)
         while time.time() < end:
             try:
                 d = s.recv(chunk)
@@ -1296,7 +1299,7 @@ def run_variant(ctx, bd, variant, rng, results):
     vname = vname_of(variant)
     validators = {}
 
-    def one(case):
+    def one(case, patience=25.0):
         name, reqs, sched, extra = case
         segs = None
         if isinstance(extra, str) and extra.startswith("validators:"):
@@ -1316,7 +1319,7 @@ def run_variant(ctx, bd, variant, rng, results):
         data = b"".join(q.raw for q in reqs)
         t0 = time.time()
         try:
-            got, closed = client(srv.port, data, sched, segs=segs)
+            got, closed = client(srv.port, data, sched, segs=segs, patience=patience)
         except OSError as ex:
             return (vname, name, reqs, sched, "client I/O error: %s" % ex, [], b"")
         # the model decides whether a streamed CGI response keeps the connection: expected count follows observation
@@ -1325,6 +1328,7 @@ def run_variant(ctx, bd, variant, rng, results):
 
     faults = None
     started = False
+    transient = []
     for attempt in range(3):            # a loaded machine may need more than one try; never an alarm by itself
         try:
             srv.start(timeout=20 + 20 * attempt)
@@ -1349,6 +1353,30 @@ def run_variant(ctx, bd, variant, rng, results):
                 tracer = None
         with ThreadPoolExecutor(4) as ex:
             out = list(ex.map(one, cases))
+        # Confirmation of every oracle hit.  The first pass runs 4 clients per server and a dozen sanitized
+        # servers at once; on a starved machine a transfer can stall long enough to look truncated.  A defect
+        # of the server is a property of the (request bytes, read schedule) and shows again when the same
+        # case is run alone against the same server with a patient client; an artefact of load does not.
+        # A hit counts iff it recurs at least once (fault-shim servers draw a new fault schedule per
+        # connection, so they get more attempts).  Hits that never recur are listed in the evidence notes.
+        tries = 4 if variant.get("shim") else 2
+        for idx in range(len(out)):
+            if not out[idx][4] or not srv.alive():
+                continue
+            recurred = None
+            for _ in range(tries):
+                r2 = one(cases[idx], patience=60.0)
+                if r2[4]:
+                    recurred = r2
+                    break
+                if not srv.alive():
+                    break
+            if recurred is not None:
+                out[idx] = recurred
+            elif srv.alive():
+                transient.append("%s/%s: '%s' seen once under the parallel first pass, not in %d serial repeats of the "
+                                 "same case (load artefact, not reported)" % (vname, out[idx][1], out[idx][4][:90], tries))
+                out[idx] = r2
         if tracer is not None:
             tracer.send_signal(signal.SIGINT)
             try:
@@ -1371,6 +1399,8 @@ def run_variant(ctx, bd, variant, rng, results):
             faults = ("shim", c[0], c[1], c[2], c[3])
         except (OSError, ValueError, IndexError):
             faults = ("shim", 0, 0, 0, 0)
+    for t in transient:
+        ctx.notes.append("e2e transient: " + t)
     results.append((vname, out, rep, alive, srv.logs()[-1500:] if (rep or not alive) else "", faults))
 
 
